@@ -206,11 +206,14 @@ func handleConn(conn net.Conn, conf *Config) error {
 	leptondController.SetAutoFFC(true)
 	totalFrames := 0
 	reader := bufio.NewReader(conn)
-	var err error
-	headerInfo, err = headers.ReadHeaderInfo(reader)
+	newHeaderInfo, err := headers.ReadHeaderInfo(reader)
 	if err != nil {
 		return err
 	}
+	// headerInfo and processor are also read by the D-Bus service goroutines (see snapshot.go)
+	mu.Lock()
+	headerInfo = newHeaderInfo
+	mu.Unlock()
 
 	log.Printf("connection from %s %s (%dx%d@%dfps)", headerInfo.Brand(), headerInfo.Model(), headerInfo.ResX(), headerInfo.ResY(), headerInfo.FPS())
 	conf.LoadMotionConfig(headerInfo.Model())
@@ -237,7 +240,7 @@ func handleConn(conn net.Conn, conf *Config) error {
 		constantRecorder.SetAsConstantRecorder()
 	}
 
-	processor = motion.NewMotionProcessor(
+	newProcessor := motion.NewMotionProcessor(
 		parseFrame,
 		&conf.Motion,
 		&conf.Recorder,
@@ -248,6 +251,9 @@ func handleConn(conn net.Conn, conf *Config) error {
 		constantRecorder,
 		NewCPTVFileRecorder(conf, headerInfo, headerInfo.Brand(), headerInfo.Model(), headerInfo.CameraSerial(), headerInfo.Firmware()),
 	)
+	mu.Lock()
+	processor = newProcessor
+	mu.Unlock()
 
 	log.Print("reading frames")
 
@@ -262,7 +268,9 @@ func handleConn(conn net.Conn, conf *Config) error {
 		message := string(rawFrame[:5])
 		if message == clearBuffer {
 			log.Print("clearing motion buffer")
+			mu.Lock()
 			processor.Reset(headerInfo)
+			mu.Unlock()
 			continue
 		}
 
@@ -278,7 +286,10 @@ func handleConn(conn net.Conn, conf *Config) error {
 			log.Printf("%d frames for this connection", totalFrames)
 		}
 
+		// snapshot and test recording requests are served between frames, never during one
+		mu.Lock()
 		err = processor.Process(rawFrame)
+		mu.Unlock()
 		if _, isBadFrame := err.(*lepton3.BadFrameErr); isBadFrame {
 			event := eventclient.Event{
 				Timestamp: time.Now(),
